@@ -2,7 +2,7 @@ SPECIFICATION Spec
 CONSTANTS
   DataAlgs = {"aes128-gcm", "aes192-gcm", "aes256-gcm", "aes128-cbc", "aes256-cbc"}
   BindAlgs = {"aes128-gcm", "aes192-gcm", "aes256-gcm", "aes128-cbc", "aes256-cbc"}
-  Nows = {0,3,4,5,8,11,12,13,20}
+  Nows = {0,3,4,5,8,11,12,13,20, 99}
   Residues = {0,1,2,3,4,5,6,7,8,9,10,11,12,13,14,15}
 INVARIANTS InvC07 InvC11 InvC01 RunAgrees Emit
 PROPERTIES Frozen Terminates
